@@ -571,6 +571,11 @@ func (p *parser) funcArgs(lookAheadPrefix int) {
 		if lookAheadPrefix < 0 && p.tok().Line != p.lastLine {
 			p.fail("ambiguous-call", "ambiguous syntax (function call x new statement) near "+p.near())
 		}
+		if lookAheadPrefix >= 0 && p.tok().Line != p.lastLine {
+			// the manual forbids a line break before the '(' of a call everywhere; PUC-Lua 5.1 happens to
+			// miss it here because of its one-token look-ahead: neither outcome is judged
+			panic(&SynError{Class: "ambiguous-call-after-lookahead", Msg: "line break before '(' of a call right after a looked-ahead name (PUC accepts by accident, the manual forbids it)", Pos: p.tok().Start, Unknown: true})
+		}
 		p.info.CallParen[p.pos] = true
 		p.next()
 		if p.is(")") {
